@@ -233,10 +233,10 @@ func be64(b []byte) uint64 { return binary.BigEndian.Uint64(b) }
 func RawConsistency(h *Hub, prop string) (*rawScan, *Violation) {
 	db := h.Store.VerifDB()
 	rs := &rawScan{MaxSeq: map[uint32]uint64{}, SeqCount: map[uint32]int{}}
-	versions := map[string][]byte{}      // entity key -> json
-	newest := map[string]string{}        // rid|ds -> newest entity key
-	latest := map[string]string{}        // rid|ds -> key named by latest pointer
-	changes := map[string]bool{}         // entity keys named by change log
+	versions := map[string][]byte{} // entity key -> json
+	newest := map[string]string{}   // rid|ds -> newest entity key
+	latest := map[string]string{}   // rid|ds -> key named by latest pointer
+	changes := map[string]bool{}    // entity keys named by change log
 	outgoing, incoming := map[string]bool{}, map[string]bool{}
 	uri2id := map[string]uint64{}
 	id2uri := map[uint64]string{}
